@@ -62,6 +62,7 @@ const (
 	FindErrexitSub = "C26-errexit-ignored-context-lost-in-subshell"
 	FindErrTrapRep = "C26-err-trap-repeated"
 	FindForVarRet  = "C26-for-continues-after-return"
+	FindExitTrapRd = "C26-exit-trap-after-redirections-undone"
 )
 
 // ---------------------------------------------------------------------------
@@ -355,6 +356,7 @@ type g struct {
 	noNegCall bool // no "!" on function calls and compound commands (finding)
 	noCondSub bool // no subshell contexts where errexit is ignored (finding)
 	flat      bool // only simple top-level statements (ERR trap programs, finding)
+	exitTrap  bool // this program may install an EXIT trap
 }
 
 var (
@@ -639,7 +641,7 @@ func (g *g) words(lo, hi int) []string {
 	subst := false
 	for i := range ws {
 		ws[i] = g.word()
-		if ws[i] == "$?" && subst && vh.Excluded(FindSubstStat) {
+		if strings.Contains(ws[i], "$?") && subst && vh.Excluded(FindSubstStat) {
 			// $? after a command substitution of the same command is
 			// that substitution's status in bash only (finding)
 			ws[i] = "0"
@@ -753,17 +755,12 @@ func (g *g) bashTest(d int) string {
 	case 8:
 		return g.cleanWord() + " " + g.pick([]string{"==", "=", "!="}, "eq") + " " + g.pick(casePats, "tpat")
 	case 9:
-		// the parser reads "! a && b" as "! (a && b)" and "a && b || c" as
-		// "a && (b || c)" (finding): explicit parentheses keep both sides
-		// on the same reading
-		in := g.bashTest(d - 1)
-		if vh.Excluded(FindTestPrec) && (strings.Contains(in, " && ") || strings.Contains(in, " || ")) {
-			in = "( " + in + " )"
-		}
-		return "! " + in
+		return "! " + g.bashTest(d-1)
 	case 10:
 		return "( " + g.bashTest(d-1) + " )"
 	case 11:
+		// the parser reads "a && b || c" as "a && (b || c)" (finding):
+		// explicit parentheses keep both sides on the same reading
 		x, y := g.bashTest(d-1), g.bashTest(d-1)
 		if vh.Excluded(FindTestPrec) && strings.Contains(y, " || ") {
 			y = "( " + y + " )"
@@ -838,7 +835,17 @@ func (g *g) call() (node, bool) {
 	}
 	g.io, g.stderr, g.pipe, g.sub = g.io || f.io, g.stderr || f.stderr, g.pipe || f.pipe, g.sub || f.sub
 	g.spend(f.cost + 1)
-	return simple{words: append([]string{f.name}, g.words(0, 3)...)}, true
+	args := g.words(0, 3)
+	if vh.Excluded(FindSubstStat) {
+		// a function body that starts by reading $? sees the status of a
+		// command substitution among the call's arguments in bash only
+		for i, a := range args {
+			if strings.Contains(a, "$(") && !strings.Contains(a, "$((") {
+				args[i] = g.cleanWord()
+			}
+		}
+	}
+	return simple{words: append([]string{f.name}, args...)}, true
 }
 
 // ---------------------------------------------------------------------------
@@ -1223,7 +1230,13 @@ func (g *g) outRedir() string {
 func (g *g) fileWrite() node {
 	g.spend(2)
 	g.io = true
-	switch g.n(0, 3, "fwrite") {
+	k := g.n(0, 3, "fwrite")
+	if k == 3 && g.exitTrap && vh.Excluded(FindExitTrapRd) {
+		// exit (or errexit) inside a redirected group: bash runs the EXIT
+		// trap with the redirection still in place (finding)
+		k = 0
+	}
+	switch k {
 	case 0, 1:
 		return simple{words: append([]string{"echo"}, g.plainWords(1, 3)...), redirs: []string{g.outRedir()}}
 	case 2:
@@ -1560,10 +1573,13 @@ func (g *g) trap() node {
 	g.spend(1)
 	switch g.n(0, 4, "trap") {
 	case 0, 1:
+		if !g.exitTrap {
+			return text("trap - EXIT")
+		}
 		return text(`trap 'echo "bye $?"' EXIT`)
 	case 2:
 		if g.noErrTrp {
-			return text(`trap 'echo "bye $?"' EXIT`)
+			return text("trap - ERR")
 		}
 		g.errTrap = true
 		return text(`trap 'echo "err $?"' ERR`)
@@ -1917,6 +1933,7 @@ func Program(t *rapid.T, o Opts) string {
 	}
 	g.noErrTrp = !wantErrTrap || nf > 0 && vh.Excluded(FindErrTrapFn)
 	g.noSetE = !g.pct(30, "errexitprog")
+	g.exitTrap = g.pct(25, "exittrapprog")
 	g.padLists = (!g.noSetE || !g.noErrTrp) && vh.Excluded(FindErrexitCmp)
 	g.noNegCall = !g.noSetE && vh.Excluded(FindErrexitNeg)
 	g.noCondSub = !g.noSetE && vh.Excluded(FindErrexitSub)
@@ -1947,8 +1964,8 @@ func Program(t *rapid.T, o Opts) string {
 	if g.pct(8, "pipefail") {
 		insert(text("set -o pipefail"), "pfpos")
 	}
-	if g.pct(12, "exittrap") {
-		body = append(list{text(`trap 'echo "bye $?"' EXIT`)}, body...)
+	if g.exitTrap && g.pct(60, "exittrap") {
+		insert(text(`trap 'echo "bye $?"' EXIT`), "exittrappos")
 	}
 	if !g.noErrTrp && g.pct(70, "errtrap") {
 		g.errTrap = true
